@@ -32,7 +32,8 @@ WIDE = []
 for _w in list(range(1001, 1041)) + [1999, 2000, 2001, 9999, 10000, 10001, 19999, 20000, 99999, 100001, 199999, 999999, 1000001, 1999999]:
     for _lo in (0, 1, -1000, -(_w // 2)):
         WIDE.append((_lo, _lo + _w))
-FBOUNDS = [(0.0, 1.0), (-1.0, 1.0), (1.5, 1.5), (9.0, 10.0), (-100.0, 100.0)]
+FBOUNDS = [(0.0, 1.0), (-1.0, 1.0), (1.5, 1.5), (9.0, 10.0), (-100.0, 100.0), (3.14, 3.14), (7.7, 7.7), (1 / 3, 1 / 3),
+           (sys.float_info.max, sys.float_info.max), (-2.718, -2.718), (0.1, 0.1000001), (1e-300, 2e-300)]
 
 
 def units(tier, seed):
